@@ -94,12 +94,12 @@ func (e *Env) c05ProcRunLoop() {
 	isSel := func(n *core.Node) bool { return n == sels[0] }
 	nTests := 0
 	for _, n := range g.Nodes {
-		if n.Ctx != g.Root {
+		if n.Kind == core.KAfter {
 			continue
 		}
 		switch x := n.Instr.(type) {
 		case *ssa.BinOp:
-			if (x.Op == token.NEQ || x.Op == token.EQL) && (x.X == ssa.Value(feedPhi) || x.Y == ssa.Value(feedPhi)) {
+			if n.Ctx == g.Root && (x.Op == token.NEQ || x.Op == token.EQL) && (x.X == ssa.Value(feedPhi) || x.Y == ssa.Value(feedPhi)) {
 				nTests++
 				open := core.BoolAV(x.Op == token.NEQ)
 				res := g.Run(core.Scenario{Start: n, Result: open})
@@ -111,7 +111,8 @@ func (e *Env) c05ProcRunLoop() {
 			}
 		case *ssa.Call:
 			if n.IsBuiltin("len") {
-				s := sy.InCtx(g.Root, x.Call.Args[0]).String()
+				// (the length test may sit in a predicate helper of the queue type)
+				s := sy.InCtx(n.Ctx, x.Call.Args[0]).String()
 				if strings.Contains(s, "recv(") && strings.Contains(s, "append(") {
 					nTests++
 					res := g.Run(core.Scenario{Start: n, Result: core.IntAV(1)})
@@ -479,7 +480,7 @@ func (e *Env) c05Sink(rule string) {
 	sy := e.symbolizer()
 	var gos, waits, closes []*core.Node
 	for _, n := range g.Nodes {
-		if n.Ctx != g.Root {
+		if n.Kind == core.KAfter {
 			continue
 		}
 		switch {
@@ -535,11 +536,23 @@ func (e *Env) c05Sink(rule string) {
 		}
 	}
 	gg, gw := []string{}, []string{}
+	guardKey := func(n *core.Node) string {
+		var parts []string
+		for _, gd := range g.Guards(n, sy) {
+			c := gd.Cond.String()
+			if !gd.Pol {
+				c = "!" + c
+			}
+			parts = append(parts, c)
+		}
+		sort.Strings(parts)
+		return strings.Join(parts, " && ")
+	}
 	for _, n := range gos {
-		gg = append(gg, guardsOf(sy, run, n.Instr))
+		gg = append(gg, guardKey(n))
 	}
 	for _, n := range waits {
-		gw = append(gw, guardsOf(sy, run, n.Instr))
+		gw = append(gw, guardKey(n))
 	}
 	sort.Strings(gg)
 	sort.Strings(gw)
